@@ -18,3 +18,37 @@ Theorem tol_stop_value_is_score_of_returned_point :
   exists lip opt, k_lipschitz K = Ok lip /\ stop_criterion cfg K (o_w out) (o_Xw out) lip = Ok (opt, o_stop out).
 Proof. intros F H A. exact (@solve_stop_is_criterion F H A). Qed.
 Print Assumptions tol_stop_value_is_score_of_returned_point.
+
+(* ---- generic outer loop (GramCD / GroupBCD / MultiTaskBCD / ProxNewton / GroupProxNewton skeletons) ---- *)
+Require Import SK.Skel.Generic SK.Skel.GramCD.
+Theorem generic_history_one_entry_per_iteration :
+  forall {F} `{Num F} {St C} (tol : F) (crit : St -> res (C * Ext F)) (body : St -> C -> Ext F -> res St)
+         (objective : St -> res (Ext F)) max_iter s0 out,
+  grun tol crit body objective max_iter s0 = Ok out ->
+  length (g_obj out) = g_iters out /\ (g_iters out <= max_iter)%nat /\
+  (g_obj out = nil \/ objective (g_s out) = Ok (last (g_obj out) PInf)).
+Proof. intros F H St C. exact (@grun_history F H St C). Qed.
+Print Assumptions generic_history_one_entry_per_iteration.
+
+(* every entry is the objective of the state at the end of its own iteration *)
+Theorem generic_history_entries_are_objectives_of_iterates :
+  forall {F} `{Num F} {St C} (tol : F) (crit : St -> res (C * Ext F)) (body : St -> C -> Ext F -> res St)
+         (objective : St -> res (Ext F)) max_iter s0 out,
+  grun tol crit body objective max_iter s0 = Ok out ->
+  exists states, gtrace tol crit body s0 states (g_s out) /\ length states = g_iters out /\
+                 Forall2 (fun st o => objective st = Ok o) states (g_obj out).
+Proof. intros F H St C. exact (@grun_history_entries F H St C). Qed.
+Print Assumptions generic_history_entries_are_objectives_of_iterates.
+
+(* GramCD: the appended value is 0.5 w'Qw - q'w + ||y||^2/(2n) + penalty(w) of the current w (skeleton tied by
+   end-to-end correspondence with the real _solve) *)
+Theorem gramcd_history :
+  forall {F} `{Num F} {A} (cfg : @gconfig F) (K : @gkernels F A) (D : @gdata F) w_init out,
+  gsolve cfg K D w_init = Ok out ->
+  length (g_obj out) = g_iters out /\ (g_iters out <= gc_max_iter cfg)%nat /\
+  (g_obj out = nil \/ gobjective K D (g_s out) = Ok (last (g_obj out) PInf)).
+Proof.
+  intros F H A cfg K D w_init out Hrun. unfold gsolve in Hrun. apply bind_ok in Hrun as (s0 & _ & Hrun).
+  exact (grun_history _ _ _ _ _ _ _ Hrun).
+Qed.
+Print Assumptions gramcd_history.
